@@ -99,6 +99,20 @@ def proj(node):
             tuple(proj(c) for c in node))
 
 
+HTML_META = "{http://www.w3.org/1999/xhtml}meta"
+
+
+def tree_metas(doc):
+    """HTML meta elements of an etree result in document order, attributes in the trace encoding"""
+    out = []
+    for el in doc.iter():
+        if el.tag == HTML_META:
+            ct = el.attrib.get("content")
+            out.append({"cs": cps(el.attrib.get("charset")), "he": cps(el.attrib.get("http-equiv")),
+                        "ct": [-1] if ct is None else list(ct.encode("utf-8", "surrogatepass"))})
+    return out
+
+
 def _builder():
     from html5lib import treebuilders
     if "tb" not in _HOOKED:
@@ -148,20 +162,21 @@ def source(data, mode):
     return data if mode == "bytes" else io.BytesIO(data) if mode == "bytesio" else Pipe(data)
 
 
-def observe(data, labels, mode="bytes"):
+def observe(data, labels, mode="bytes", scripting=False):
     """run the real code on (bytes, *_encoding arguments); returns the trace record (k = "parse") or None when
     the parse of these bytes fails for reasons that are not C06's (same exception on the decoded text)"""
     import webencodings
     from html5lib._inputstream import HTMLBinaryInputStream
     install_hooks()
     kw = kw_of(labels)
-    tr = {"k": "parse", "data": list(data[:TRACE_DATA_MAX]), "src": mode, "raised": False,
+    skw = {"scripting": True} if scripting else {}
+    tr = {"k": "parse", "data": list(data[:TRACE_DATA_MAX]), "src": mode, "raised": False, "scripting": scripting,
           "kw": {k: (cps(labels.get(k)) if k in labels else cps("windows-1252" if k == "d" else None)) for k, _ in KW}}
     try:
         s = HTMLBinaryInputStream(source(data, mode), useChardet=False, **kw)
     except AssertionError:
         try:
-            parse_tree(source(data, mode), useChardet=False, **kw)
+            parse_tree(source(data, mode), useChardet=False, **kw, **skw)
         except AssertionError:
             tr["raised"] = True
             return tr
@@ -170,7 +185,7 @@ def observe(data, labels, mode="bytes"):
     _REC["ev"] = []
     err = None
     try:
-        p, doc = parse_tree(source(data, mode), useChardet=False, **kw)
+        p, doc = parse_tree(source(data, mode), useChardet=False, **kw, **skw)
     except Exception as e:        # noqa
         err = e
     finally:
@@ -180,7 +195,7 @@ def observe(data, labels, mode="bytes"):
         # not an encoding matter if the decoded text fails the same way
         try:
             enc0 = s.charEncoding[0]
-            parse_tree(stream_decode(enc0.codec_info, data[tr["skip0"]:]))
+            parse_tree(stream_decode(enc0.codec_info, data[tr["skip0"]:]), **skw)
         except Exception as e2:   # noqa
             if type(e2) is type(err):
                 return None
@@ -196,11 +211,12 @@ def observe(data, labels, mode="bytes"):
     tr["from"] = 0 if tr["restarts"] else tr["skip0"]
     got = proj(doc)
     text_f = stream_decode(enc.codec_info, data[tr["from"]:])
-    tr["tf"] = got == proj(parse_tree(text_f)[1])
+    tr["tm"] = tree_metas(doc)
+    tr["tf"] = got == proj(parse_tree(text_f, **skw)[1])
     bom_enc, bom_len = std_bom(data)
     penc = webencodings.lookup(bom_enc) if bom_enc else webencodings.lookup(tr["e"])
     text_p = stream_decode(penc.codec_info, data[bom_len:])
-    tr["tp"] = (penc.name == tr["e"]) and (tr["tf"] if text_p == text_f else got == proj(parse_tree(text_p)[1]))
+    tr["tp"] = (penc.name == tr["e"]) and (tr["tf"] if text_p == text_f else got == proj(parse_tree(text_p, **skw)[1]))
     return tr
 
 
@@ -222,7 +238,7 @@ def cfg_prescan(kind, maxlen, pads, listed, export=True, check=True):
 
 def cfg_encoding(mode, labels, decl_labels, forms, boms, maxwin, maxdecl, listed, export, check):
     return ("INIT Init\nNEXT Next\nCHECK_DEADLOCK FALSE\nINVARIANT ThmPrecedence\nINVARIANT ThmReported\n"
-            "INVARIANT ThmLateMeta\nINVARIANT ThmRestartOnce\nINVARIANT ThmExport\nPROPERTY ThmCertainStable\n"
+            "INVARIANT ThmLateMeta\nINVARIANT ThmNoDeclLeft\nINVARIANT ThmRestartOnce\nINVARIANT ThmExport\nPROPERTY ThmCertainStable\n"
             "CONSTANT Mode = \"%s\"\nCONSTANT Labels = %s\nCONSTANT DeclLabels = %s\nCONSTANT Forms = %s\n"
             "CONSTANT BomKinds = %s\nCONSTANT MaxWin = %d\nCONSTANT MaxDecl = %d\nCONSTANT Export = %s\n"
             "CONSTANT CheckProperty = %s\nCONSTANT KnownDefects = %s\n"
@@ -455,6 +471,16 @@ NOISE = ["<!--x-->", "<!-->", "<!--->", "<!---->", "<!-- <meta charset=koi8-r> -
          "<x y=\"<meta charset=koi8-r>\">", "<x y='", "\"", "'", ">", "=", "<br/>", "<plaintext>", "<frameset>", "\x00", "<pre>\n"]
 
 
+# positions in which a meta start tag can (or cannot) reach the "in head" rules
+CONTEXTS = [("", ""), ("", ""), ("<head><noscript>", "</noscript>"), ("<head><noscript>", "</noscript></head>"), ("<noscript>", "</noscript>"),
+            ("<table>", ""), ("<table><tr><td>", "</td></tr>"), ("<table><tr><td>x</td></tr>", "</table>"), ("<table><caption>", ""),
+            ("<table><colgroup>", ""), ("<select>", "</select>"), ("<table><tr><td><select>", ""), ("<svg>", "</svg>"), ("<svg><desc>", ""),
+            ("<math><mi>", ""), ("<template>", "</template>"), ("</head>", ""), ("<head></head>", ""), ("<body>", ""), ("<body><p><b>", ""),
+            ("<head>", "</head>"), ("<html><head>", ""), ("</html>", ""), ("</body>", ""), ("<body>", "<frameset>"), ("<frameset>", ""),
+            ("<frameset></frameset>", ""), ("<title>", "</title>"), ("<textarea>", "</textarea>"), ("<noframes>", "</noframes>"),
+            ("<body><noscript>", "</noscript>"), ("<p><table>", "</table>"), ("<ul><li>", ""), ("<button>", ""), ("<!DOCTYPE html>", "")]
+
+
 def rnd_doc(rng):
     """adversarial document: BOM?, noise, metas at arbitrary offsets (window edge included), body"""
     parts = []
@@ -469,7 +495,8 @@ def rnd_doc(rng):
             n = max(0, target - cur - 7)
             pad = rng.choice(["<!--%s-->" % ("p" * n), " " * (n + 7), "<a b='%s'>" % ("q" * n), "x" * (n + 7)])
             parts.append(pad)
-        parts.append(rnd_meta(rng))
+        pre, post = rng.choice(CONTEXTS)
+        parts.append(pre + rnd_meta(rng) + post)
         for _ in range(rng.choice([0, 0, 1, 2])):
             parts.append(rng.choice(NOISE))
     parts.append(rng.choice(["<p>café", "", "<body>x", "中文", "<table><meta charset=koi8-r>x"]))
@@ -572,7 +599,7 @@ def self_check(ctx):
 def _obs_item(item):
     data, labels = item[0], item[1]
     try:
-        return observe(data, labels, item[2] if len(item) > 2 else "bytes")
+        return observe(data, labels, item[2] if len(item) > 2 else "bytes", bool(item[3]) if len(item) > 3 else False)
     except Exception as e:      # noqa: an exception of the observed code on the stream level
         return {"error": "stream/observe raised " + repr(e), "data": list(data[:TRACE_DATA_MAX]), "labels": labels,
                 "src": item[2] if len(item) > 2 else "bytes"}
@@ -691,11 +718,19 @@ def run(ctx):
     jobs = []
     for job in FIXED:
         jobs.append(job)
+    late = b"<!--" + b"x" * 1100 + b"-->"
+    for pre, post in CONTEXTS[2:]:
+        for m in (b"<meta charset=utf-8>", b'<meta http-equiv="Content-Type" content="text/html; charset=koi8-r">', b"<meta charset=utf-16>"):
+            for scripting in (False, True):
+                for lead in (b"", b"<head>"):
+                    jobs.append((lead + late + pre.encode() + m + post.encode() + b"<title>\xc3\xa9</title>x", {}, "bytes", scripting))
+    jobs.append((b"<head><!--" + b"x" * 1100 + b"--><noscript><meta charset=utf-8></noscript><title>\xc3\xa9", {}, "bytes", False))
+    jobs.append((b"<head><!--" + b"x" * 1100 + b"--><noscript><meta charset=utf-8></noscript><title>\xc3\xa9", {"l": "koi8-r"}, "bytes", False))
     for b in corpus_docs(ctx, 150 if q else 1500):
         jobs.append((b, rnd_labels(ctx.rng) if ctx.rng.random() < 0.6 else {}))
     for _ in range(1500 if q else 22000):
         jobs.append((rnd_doc(ctx.rng), rnd_labels(ctx.rng) if ctx.rng.random() < 0.55 else {},
-                     ctx.rng.choice(["bytes", "bytes", "bytes", "bytes", "bytesio", "pipe"])))
+                     ctx.rng.choice(["bytes", "bytes", "bytes", "bytes", "bytesio", "pipe"]), ctx.rng.random() < 0.25))
     pending = [i for i, t in enumerate(traces) if t is None]
     pend_jobs = [origin[i][1] for i in pending]
     res = core.parallel(_obs_item, pend_jobs + jobs, chunk=300)
@@ -731,7 +766,7 @@ def run(ctx):
         o = gorigin[idx[id(tr)]]
         if o[1] is not None:        # the complete input (a trace carries only the first TRACE_DATA_MAX bytes)
             case = {"kind": "bytes", "data": list(o[1][0]), "labels": o[1][1], "src": o[1][2] if len(o[1]) > 2 else "bytes",
-                    "origin": o[0], "verdict": rec}
+                    "scripting": bool(o[1][3]) if len(o[1]) > 3 else False, "origin": o[0], "verdict": rec}
         else:
             case = {"kind": "trace", "trace": tr, "origin": o[0], "verdict": rec}
         if rec["v"] == "finding":
@@ -763,7 +798,7 @@ def replay(case):
         if tr and "error" not in tr:
             print("replay: code gives   ", {k: tr[k] for k in ("e0", "c0", "skip0", "e", "c", "restarts")})
     elif kind == "bytes":
-        tr = _obs_item((bytes(c["data"]), c.get("labels") or {}, c.get("src", "bytes")))
+        tr = _obs_item((bytes(c["data"]), c.get("labels") or {}, c.get("src", "bytes"), c.get("scripting", False)))
     elif kind == "extract":
         tr = observe_extract(bytes(c["v"]))
     elif kind == "trace":
@@ -776,7 +811,7 @@ def replay(case):
             for k, _ in KW:
                 v = t["kw"][k]
                 labels[k] = None if v == [-1] else "".join(chr(x) for x in v)
-            tr = _obs_item((bytes(t["data"]), labels, t.get("src", "bytes")))
+            tr = _obs_item((bytes(t["data"]), labels, t.get("src", "bytes"), t.get("scripting", False)))
     else:
         print("replay data:", {k: v for k, v in c.items()})
         return 1
